@@ -5,7 +5,16 @@ package interp
 // in harness/vh_native.go) is: nodes in depth-first pre-order, object
 // members in sorted key order, 8 replacements per node.
 
-import "sort"
+import (
+	"bytes"
+	"compress/gzip"
+	"fmt"
+	"io"
+	"os"
+	"path/filepath"
+	"sort"
+	"strings"
+)
 
 const mutKinds = 8
 
@@ -145,4 +154,97 @@ func init() {
 		}
 		return nil
 	})
+}
+
+func init() {
+	// vLoadGolden(name): copy /verif/golden/<name>/db into the fs model
+	// (real bytes written by the pinned release) and return its root.
+	reg(hp+"vLoadGolden", func(i *interpreter, fr *frame, args []value) value {
+		name := strArg(args[0])
+		src := filepath.Join(verifDir, "golden", name)
+		i.env.tmpSeq++
+		dst := fmt.Sprintf("/vroot/golden%d", i.env.tmpSeq)
+		f := i.env.fsm()
+		for _, q := range []string{"/vroot", dst} {
+			if f.nodes[q] == nil {
+				f.nodes[q] = &fsNode{dir: true}
+			}
+		}
+		err := filepath.Walk(src, func(p string, info os.FileInfo, err error) error {
+			if err != nil {
+				return err
+			}
+			rel, _ := filepath.Rel(src, p)
+			if rel == "." {
+				return nil
+			}
+			target := filepath.Join(dst, rel)
+			if info.IsDir() {
+				f.nodes[target] = &fsNode{dir: true}
+				return nil
+			}
+			b, err := os.ReadFile(p)
+			if err != nil {
+				return err
+			}
+			n := &fsNode{}
+			if strings.HasSuffix(p, ".gz") {
+				zr, err := gzip.NewReader(bytes.NewReader(b))
+				if err != nil {
+					return err
+				}
+				b, err = io.ReadAll(zr)
+				if err != nil {
+					return err
+				}
+				n.gz = true
+			}
+			n.data = &jsonBlob{raw: b}
+			f.nodes[target] = n
+			return nil
+		})
+		if err != nil {
+			unsupportedf("golden corpus %s: %v", name, err)
+		}
+		return dst
+	})
+	// vJSONShape(path): keys, nesting and leaf kinds of a JSON document
+	reg(hp+"vJSONShape", func(i *interpreter, fr *frame, args []value) value {
+		n := i.env.fsm().nodes[pathArg(args[0])]
+		if n == nil || n.data == nil {
+			return "<missing>"
+		}
+		tree, err := i.blobTree(n.data)
+		if err != nil {
+			return "<invalid>"
+		}
+		return jshape(tree)
+	})
+}
+
+func jshape(n *jnode) string {
+	switch n.kind {
+	case jNull:
+		return "null"
+	case jBool:
+		return "bool"
+	case jNum:
+		return "num"
+	case jStr, jTime:
+		return "str"
+	case jArr:
+		if len(n.arr) == 0 {
+			return "[]"
+		}
+		return "[" + jshape(n.arr[0]) + "*]"
+	case jObj:
+		var parts []string
+		for _, k := range sortedKeyOrder(n.keys) {
+			key := n.keys[k]
+			// members keyed by data (uuids, object ids, field paths) are summarised
+			parts = append(parts, key+":"+jshape(n.vals[k]))
+		}
+		return "{" + strings.Join(parts, ",") + "}"
+	}
+	return "?"
 }
